@@ -203,6 +203,32 @@ def check_affine(ctx, case):
             return
 
 
+    # resize of a scaled object (in place, to a format that holds every code): same values, limits remapped to the new format
+    if sel is None and all(M.is_double(s * M.value_of(t[0], f)) and M.is_double(wv) for t, wv in zip(q, wantv)):
+        g, df = (1, 0) if (w + f) % 3 == 0 else (2, 1) if (w + f) % 3 == 1 else (3, 2)
+        w2, f2 = w + g, f + df
+        if w2 <= 52:
+            def rs():
+                y = x.deepcopy()
+                y.resize(sg, w2, f2)
+                return y
+            ok, y = ctx.guard(case, rs, sig_prefix='%s/resize/' % sig)
+            if not ok:
+                return
+            ctx.cls('resize-scaled')
+            lo2, hi2 = M.rng(sg, w2)
+            if C.fmt_of(y) != (bool(sg), w2, f2) or C.flat(C.codes(y)) != [t[0] << df for t in q]:
+                ctx.fail('affine/resize/code', case, {'fmt': C.fmt_of(y), 'expected': [t[0] << df for t in q], 'got': C.flat(C.codes(y)), 'scale': str(s), 'bias': str(b)})
+                return
+            if C.values(y) != wantv:
+                ctx.fail('affine/resize/readback', case, {'expected': [str(v) for v in wantv], 'got': [str(v) for v in C.values(y)]})
+                return
+            for name, wv in {'upper': s * M.value_of(hi2, f2) + b, 'lower': s * M.value_of(lo2, f2) + b, 'precision': s * M.pow2(-f2)}.items():
+                if M.is_double(wv) and C.frac_of(getattr(y, name)) != wv:
+                    ctx.fail('affine/resize/%s' % name, case, {'expected': str(wv), 'got': str(getattr(y, name))})
+                    return
+
+
 def check_affine_out(ctx, case):
     """The sum of two unscaled operands delivered into a scaled target (out=, out_like=, numpy out=), and the sum with a
     scaled second operand: the target stores the C01 quantization of (v-b)/s of the exact sum v."""
